@@ -32,10 +32,10 @@ theorem kd_derive_icc_mk_b (k : Bytes) (pan : StrOrBytes) (psn : Option StrOrByt
             by_cases hl : ((sha1Hex hashed).filter isDec |>.take 16).length < 16
             · simp only [hl, if_true]
               repeat (first | rfl | split)
-              all_goals simp_all
+              all_goals first | (simp_all; done) | slice_forms
             · simp only [hl, if_false]
               repeat (first | rfl | split)
-              all_goals simp_all
+              all_goals first | (simp_all; done) | slice_forms
         · have h0 : pt.length % 2 = 0 := by omega
           simp only [h0, show ¬ (2 : Nat) = 0 by omega, if_false, ne_eq, not_true_eq_false, Nat.zero_ne_one]
           cases a2bHex (pt ++ ps) with
@@ -45,9 +45,9 @@ theorem kd_derive_icc_mk_b (k : Bytes) (pan : StrOrBytes) (psn : Option StrOrByt
             by_cases hl : ((sha1Hex hashed).filter isDec |>.take 16).length < 16
             · simp only [hl, if_true]
               repeat (first | rfl | split)
-              all_goals simp_all
+              all_goals first | (simp_all; done) | slice_forms
             · simp only [hl, if_false]
               repeat (first | rfl | split)
-              all_goals simp_all
+              all_goals first | (simp_all; done) | slice_forms
 
 end Pyemv.ModRefines
